@@ -615,31 +615,38 @@ impl Relations {
 
     /// Insert a new entry at the given index
     pub fn insert(&mut self, idx: usize, entry: Entry) {
-        let is_empty = !self.0.children_with_tokens().any(|n| n.kind() == COMMA);
         let (position, new_children) = if let Some(current_entry) = self.entries().nth(idx) {
-            let to_insert: Vec<NodeOrToken<GreenNode, GreenToken>> = if idx == 0 && is_empty {
-                vec![entry.0.green().into()]
-            } else {
-                vec![
-                    entry.0.green().into(),
-                    NodeOrToken::Token(GreenToken::new(COMMA.into(), ",")),
-                    NodeOrToken::Token(GreenToken::new(WHITESPACE.into(), " ")),
-                ]
-            };
+            // In front of an existing entry: the new entry and its separator
+            let to_insert: Vec<NodeOrToken<GreenNode, GreenToken>> = vec![
+                entry.0.green().into(),
+                NodeOrToken::Token(GreenToken::new(COMMA.into(), ",")),
+                NodeOrToken::Token(GreenToken::new(WHITESPACE.into(), " ")),
+            ];
 
             (current_entry.0.index(), to_insert)
         } else {
+            // At the end: separate from whatever precedes (an entry or a
+            // substitution variable), unless the field is empty or already
+            // ends in a separator
             let child_count = self.0.children_with_tokens().count();
+            let last = self
+                .0
+                .children_with_tokens()
+                .filter(|n| n.kind() != WHITESPACE && n.kind() != NEWLINE)
+                .last();
             (
                 child_count,
-                if idx == 0 {
-                    vec![entry.0.green().into()]
-                } else {
-                    vec![
+                match last.map(|n| n.kind()) {
+                    None => vec![entry.0.green().into()],
+                    Some(COMMA) => vec![
+                        NodeOrToken::Token(GreenToken::new(WHITESPACE.into(), " ")),
+                        entry.0.green().into(),
+                    ],
+                    Some(_) => vec![
                         NodeOrToken::Token(GreenToken::new(COMMA.into(), ",")),
                         NodeOrToken::Token(GreenToken::new(WHITESPACE.into(), " ")),
                         entry.0.green().into(),
-                    ]
+                    ],
                 },
             )
         };
